@@ -329,9 +329,11 @@ def gen(rng: random.Random, tier: str) -> dict:
     cfg = docgen.config(rng) if rng.random() < 0.6 else dict(BASE_CFG)
     nt = 1 if rng.random() < 0.12 else (2 if (tier == "quick" or rng.random() < 0.6) else 3)
     instr = rng.random() < (0.25 if tier == "quick" else 0.5)
+    start = _gen_start(rng)
+    if start[0] == "aged" and rng.random() < 0.4:
+        instr = True        # check-then-act windows of a memo usually sit inside one source line
     small = instr or rng.random() < 0.5
     threads = [[_gen_call(rng, small) for _ in range(1 if rng.random() < 0.75 else 2)] for _ in range(nt)]
-    start = _gen_start(rng)
     if start[0] == "aged":
         for calls in threads:
             for call in calls:
@@ -343,6 +345,11 @@ def gen(rng: random.Random, tier: str) -> dict:
         rec["nested"] = _gen_nested(rng, threads)
     if nt > 1:
         k = rng.random()
+        used = start[0] in ("aged", "warm", "options")
+        if used and rng.random() < 0.5:
+            # steady-state writes (memos, spare objects, scratch state) only exist on an instance that has been used:
+            # there the write-directed shapes get a larger share
+            k = rng.choice([0.1, 0.1, 0.45, 0.45, 0.45])
         if 0.40 <= k < 0.52:
             # K5 "ping-pong around writes": thread 0 is pre-empted at/just before/after one of its own shared-state writes (or
             # inside a writer function); thread 1 then runs until just past one of ITS writes and is parked; thread 0 runs
@@ -370,6 +377,9 @@ def gen(rng: random.Random, tier: str) -> dict:
                 spec = {"wc": rng.random(), "loc": rng.random() < 0.5}
             else:
                 spec = {"frac": rng.random(), "of": "t0"}
+            if used and rng.random() < 0.5:
+                spec = {"wc": rng.random(), "loc": rng.random() < 0.5} if rng.random() < 0.6 else \
+                    {"ws": rng.random(), "d": rng.choice([0, 0, 1, 2, -1, -1])}
             if ("ws" in spec or "wc" in spec) and start[0] in ("fresh", "reconfigured") and rng.random() < 0.7:
                 # on a fresh / reconfigured instance the writes are the chain compilation, which the (cheaper)
                 # first-use windows already cover
